@@ -4,15 +4,21 @@ directory) and writes /verif/seeded/matrix.json: which checks alarm on which cha
 import json, os, subprocess, sys, concurrent.futures as cf
 V = '/verif'
 props = [c['property_id'] for c in json.load(open(f'{V}/MANIFEST.json'))['checks']]
-seeds = sorted(d for d in os.listdir('/tmp/seed') if os.path.isdir(f'/tmp/seed/{d}') and d.startswith('C'))
-if len(sys.argv) > 1:
-    seeds = sys.argv[1:]
+ROOTS = {'': '/tmp/seed', 'b': '/tmp/seed2', 'c': '/tmp/seed3'}   # round suffix -> worktree root
+def wt_of(seed):
+    return f"{ROOTS[seed[3:]]}/{seed[:3]}"
+seeds = sorted(d + suf for suf, root in ROOTS.items() if os.path.isdir(root)
+               for d in os.listdir(root) if os.path.isdir(f'{root}/{d}') and d.startswith('C') and os.path.isdir(f'{V}/seeded/{d}{suf}'))
+only_target = '--target-only' in sys.argv
+args = [a for a in sys.argv[1:] if not a.startswith('--')]
+if args:
+    seeds = args
 
 def run_seed(seed):
-    env = dict(os.environ, VERIF_REPO=f'/tmp/seed/{seed}', VERIF_BUILD=f'/tmp/vb/{seed}', VERIF_NO_EVIDENCE='1')
+    env = dict(os.environ, VERIF_REPO=wt_of(seed), VERIF_BUILD=f'/tmp/vb/{seed}', VERIF_NO_EVIDENCE='1')
     os.makedirs(f'/tmp/vb/{seed}', exist_ok=True)
     row = {}
-    for p in props:
+    for p in ([seed[:3]] if only_target else props):
         try:
             r = subprocess.run([f'{V}/check', p], cwd=V, env=env, capture_output=True, text=True, timeout=1500)
             lines = [l for l in r.stdout.splitlines() if l.startswith('VIOLATION')]
@@ -27,7 +33,7 @@ if os.path.exists(f'{V}/seeded/matrix.json'):
     matrix = json.load(open(f'{V}/seeded/matrix.json'))
 with cf.ThreadPoolExecutor(max_workers=4) as ex:
     for seed, row in ex.map(run_seed, seeds):
-        matrix[seed] = row
-        alarms = [p for p, r in row.items() if r['rc'] != 0]
+        matrix.setdefault(seed, {}).update(row)
+        alarms = [p + ('' if r.get('concrete') else '(nfi)') for p, r in row.items() if r['rc'] != 0]
         print(seed, 'alarms:', alarms, flush=True)
         json.dump(matrix, open(f'{V}/seeded/matrix.json', 'w'), indent=1)
